@@ -234,10 +234,20 @@ Section Pipeline.
     - rewrite raw_get_raw_copy by exact Hn. cbn. reflexivity.
   Qed.
 
+  Lemma transport_connect_pa pc :
+    h_values PA (transport_connect_header pc) = match pc with Some c => [basic_value c] | None => [] end.
+  Proof. destruct pc as [c|]; [apply h_values_set_same | reflexivity]. Qed.
+
+  Lemma pipeline_pa_values om scheme host h : h_values PA (request_pipeline om scheme host h) = [].
+  Proof.
+    unfold h_values. replace (canon PA) with PA by (vm_compute; reflexivity).
+    rewrite pipeline_no_pa. reflexivity.
+  Qed.
+
   (* every message the proxy emits: Proxy-Authorization is a function of the
      configuration and of the hop only — never of what the client sent *)
-  Lemma forward_pa om u q m :
-    In m (forward om u q) ->
+  Lemma forward_pa om u scheme q m :
+    In m (forward om u scheme q) ->
     h_values PA (o_fields m) =
     match o_to m, upstream_cred om u with
     | ToProxy, Some c => [basic_value c]
@@ -248,44 +258,55 @@ Section Pipeline.
     - destruct u as [|s hst ui|s hst]; simpl; try contradiction;
         (intros [<-|[]]; simpl; rewrite dialvia_pa by apply pipeline_no_pa;
          match goal with |- context [match ?x with Some _ => _ | None => _ end] => destruct x end; reflexivity).
-    - destruct u as [|s hst ui|s hst]; simpl; (intros [<-|[]]; simpl).
-      + unfold h_values. replace (canon PA) with PA by (vm_compute; reflexivity).
-        rewrite pipeline_no_pa. reflexivity.
-      + match goal with |- context [match ?x with Some _ => _ | None => _ end] => destruct x eqn:U end.
-        * apply h_values_set_same.
-        * unfold h_values. replace (canon PA) with PA by (vm_compute; reflexivity).
-          rewrite pipeline_no_pa. reflexivity.
-      + match goal with |- context [match ?x with Some _ => _ | None => _ end] => destruct x eqn:U end.
-        * apply h_values_set_same.
-        * unfold h_values. replace (canon PA) with PA by (vm_compute; reflexivity).
-          rewrite pipeline_no_pa. reflexivity.
+    - destruct u as [|s hst ui|s hst].
+      + simpl. intros [<-|[]]; simpl. apply pipeline_pa_values.
+      + destruct (is_https scheme); simpl.
+        * intros [<-|[<-|[]]]; simpl; [|apply pipeline_pa_values].
+          rewrite transport_connect_pa.
+          match goal with |- context [match ?x with Some _ => _ | None => _ end] => destruct x end; reflexivity.
+        * intros [<-|[]]; simpl.
+          match goal with |- context [match ?x with Some _ => _ | None => _ end] => destruct x eqn:U end;
+            [apply h_values_set_same | apply pipeline_pa_values].
+      + destruct (is_https scheme); simpl.
+        * intros [<-|[<-|[]]]; simpl; [|apply pipeline_pa_values].
+          rewrite transport_connect_pa.
+          match goal with |- context [match ?x with Some _ => _ | None => _ end] => destruct x end; reflexivity.
+        * intros [<-|[]]; simpl.
+          match goal with |- context [match ?x with Some _ => _ | None => _ end] => destruct x eqn:U end;
+            [apply h_values_set_same | apply pipeline_pa_values].
   Qed.
 
-  (* a message addressed to an origin never carries the field *)
-  Lemma forward_origin_no_pa om u q m :
-    In m (forward om u q) -> o_to m = ToOrigin -> h_values PA (o_fields m) = [].
-  Proof. intros Hin Ho. rewrite (forward_pa om u q m Hin), Ho. reflexivity. Qed.
+  (* a message addressed to an origin — in clear or inside a tunnel — never carries the field *)
+  Lemma forward_origin_no_pa om u scheme q m :
+    In m (forward om u scheme q) -> o_to m = ToOrigin -> h_values PA (o_fields m) = [].
+  Proof. intros Hin Ho. rewrite (forward_pa om u scheme q m Hin), Ho. reflexivity. Qed.
 
-  (* Authorization on the plain request leaving the proxy *)
-  Lemma forward_au om u q m :
+  (* Authorization on the request (not on a CONNECT head) leaving the proxy *)
+  Lemma forward_au om u scheme q m :
     is_connect q = false ->
     existsb (fun x => str_eqb (canon x) AU) (connection_nominated (r_hdr q)) = false ->
-    In m (forward om u q) ->
+    In m (forward om u scheme q) -> o_kind m <> MConnect ->
     h_values AU (o_fields m) =
     match h_values AU (r_hdr q) with
-    | [] => match omatch_url om (b "http") (r_host q) with Some c => [basic_value c] | None => [] end
+    | [] => match omatch_url om scheme (r_host q) with Some c => [basic_value c] | None => [] end
     | ls => ls
     end.
   Proof.
     intros Hc Hn. unfold forward. rewrite Hc.
-    destruct u as [|s hst ui|s hst]; simpl; (intros [<-|[]]; simpl).
-    - apply pipeline_au. exact Hn.
-    - match goal with |- context [match ?x with Some _ => _ | None => _ end] => destruct x end.
-      + rewrite h_values_set_other by (vm_compute; discriminate). apply pipeline_au. exact Hn.
-      + apply pipeline_au. exact Hn.
-    - match goal with |- context [match ?x with Some _ => _ | None => _ end] => destruct x end.
-      + rewrite h_values_set_other by (vm_compute; discriminate). apply pipeline_au. exact Hn.
-      + apply pipeline_au. exact Hn.
+    destruct u as [|s hst ui|s hst].
+    - simpl. intros [<-|[]] _; simpl. apply pipeline_au. exact Hn.
+    - destruct (is_https scheme); simpl.
+      + intros [<-|[<-|[]]] Hk; simpl in *; [contradiction | apply pipeline_au; exact Hn].
+      + intros [<-|[]] _; simpl.
+        match goal with |- context [match ?x with Some _ => _ | None => _ end] => destruct x end.
+        * rewrite h_values_set_other by (vm_compute; discriminate). apply pipeline_au. exact Hn.
+        * apply pipeline_au. exact Hn.
+    - destruct (is_https scheme); simpl.
+      + intros [<-|[<-|[]]] Hk; simpl in *; [contradiction | apply pipeline_au; exact Hn].
+      + intros [<-|[]] _; simpl.
+        match goal with |- context [match ?x with Some _ => _ | None => _ end] => destruct x end.
+        * rewrite h_values_set_other by (vm_compute; discriminate). apply pipeline_au. exact Hn.
+        * apply pipeline_au. exact Hn.
   Qed.
 End Pipeline.
 
@@ -297,29 +318,29 @@ Section Site.
   Hypothesis au_not_hop_by_hop : existsb (fun x => str_eqb (canon x) AU) hop_by_hop_headers = false.
   Hypothesis guard_all_lines : site_auth_checks_all_lines = true.
 
-  Lemma site_only_on_match es m u q msg :
+  Lemma site_only_on_match es m u scheme q msg :
     new_matcher es = Some m ->
     is_connect q = false ->
     existsb (fun x => str_eqb (canon x) AU) (connection_nominated (r_hdr q)) = false ->
-    In msg (forward (Some m) u q) ->
+    In msg (forward (Some m) u scheme q) -> o_kind msg <> MConnect ->
     h_values AU (r_hdr q) = [] ->
     h_values AU (o_fields msg) =
-    match spec_match_url es (b "http") (r_host q) with Some c => [basic_value c] | None => [] end.
+    match spec_match_url es scheme (r_host q) with Some c => [basic_value c] | None => [] end.
   Proof.
-    intros H Hc Hn Hin Hno.
-    rewrite (forward_au au_not_hop_by_hop guard_all_lines (Some m) u q msg Hc Hn Hin), Hno.
+    intros H Hc Hn Hin Hk Hno.
+    rewrite (forward_au au_not_hop_by_hop guard_all_lines (Some m) u scheme q msg Hc Hn Hin Hk), Hno.
     simpl. rewrite (match_url_is_spec order http_port https_port es m _ _ H). reflexivity.
   Qed.
 
-  Lemma client_authorization_kept om u q msg l ls :
+  Lemma client_authorization_kept om u scheme q msg l ls :
     is_connect q = false ->
     existsb (fun x => str_eqb (canon x) AU) (connection_nominated (r_hdr q)) = false ->
-    In msg (forward om u q) ->
+    In msg (forward om u scheme q) -> o_kind msg <> MConnect ->
     h_values AU (r_hdr q) = l :: ls ->
     h_values AU (o_fields msg) = l :: ls.
   Proof.
-    intros Hc Hn Hin Hs.
-    rewrite (forward_au au_not_hop_by_hop guard_all_lines om u q msg Hc Hn Hin), Hs. reflexivity.
+    intros Hc Hn Hin Hk Hs.
+    rewrite (forward_au au_not_hop_by_hop guard_all_lines om u scheme q msg Hc Hn Hin Hk), Hs. reflexivity.
   Qed.
 
   Lemma upstream_cred_is_spec es m u :
